@@ -110,6 +110,32 @@ theorem keySum_append_fresh (w : Widths) (input dummies : List Rec) (b : Nat)
   rw [Finset.sum_congr rfl hin, Finset.sum_congr rfl hd]
   simp
 
+/-- **C01, main theorem, relational form.** The two shuffles (with their DP padding) are arbitrary
+relations: `afterShuffle1` is any assignment to ≥ 1 shards of any permutation of the input plus fresh
+zero-payload dummies, `afterShuffle2` any assignment to shards of any permutation of the aggregated rows
+of all shards plus zero-value dummies. The leader's histogram equals the in-the-clear specification. -/
+theorem pipeline_eq_spec_rel (w : Widths) (chunk : Nat) (f : Nat → Nat)
+    (input dummies1 : List Rec) (afterShuffle1 : List (List Rec))
+    (afterShuffle2 : List (List Row)) (dummies2 : List Row)
+    (hshards : 0 < afterShuffle1.length)
+    (hsh1 : afterShuffle1.flatten.Perm (input ++ dummies1))
+    (hzero : ∀ r ∈ dummies1, r.bk = 0 ∧ r.v = 0)
+    (hfresh : ∀ r ∈ dummies1, ∀ r' ∈ input, r'.key ≠ r.key)
+    (hf : ∀ r ∈ input ++ dummies1, ∀ r' ∈ input ++ dummies1, f r.key = f r'.key → r.key = r'.key)
+    (hsh2 : afterShuffle2.flatten.Perm
+      (((List.range afterShuffle1.length).map
+        (fun d => aggregateReports w (reshardByPrf afterShuffle1.length f afterShuffle1 d))).flatten ++ dummies2))
+    (hd2 : ∀ r ∈ dummies2, r.2 = 0) :
+    finalize w (afterShuffle2.map (shardHistogram w chunk)) = spec w input := by
+  unfold spec
+  rw [finalize_shardHistograms]
+  apply List.map_congr_left
+  intro b _
+  rw [specBucket_eq, bucketSum_perm hsh2 b, bucketSum_append, bucketSum_zero dummies2 hd2 b, Nat.add_zero,
+    shardedSum w afterShuffle1.length hshards f afterShuffle1
+      (fun r hr r' hr' => hf r (hsh1.mem_iff.mp hr) r' (hsh1.mem_iff.mp hr')) b,
+    keySum_perm w b hsh1, keySum_append_fresh w input dummies1 b hzero hfresh]
+
 /-- **C01, main theorem.** For every input, every number of shards ≥ 1 and assignment of records to
 shards, both shuffles (arbitrary permutations across shards), any PRF injective on the match keys
 present, any OPRF-padding dummies (fresh keys, zero payload) and aggregation-padding dummies (zero
@@ -125,15 +151,9 @@ theorem pipeline_eq_spec (w : Widths) (chunk : Nat) (f : Nat → Nat)
     (hsh2 : ∀ rows, (shuffle2 rows).flatten.Perm (rows.flatten ++ dummies2))
     (hd2 : ∀ r ∈ dummies2, r.2 = 0) :
     pipeline w chunk f afterShuffle1 shuffle2 = spec w input := by
-  unfold pipeline spec
-  simp only []
-  rw [finalize_shardHistograms]
-  apply List.map_congr_left
-  intro b _
-  rw [specBucket_eq, bucketSum_perm (hsh2 _) b, bucketSum_append, bucketSum_zero dummies2 hd2 b, Nat.add_zero,
-    shardedSum w afterShuffle1.length hshards f afterShuffle1
-      (fun r hr r' hr' => hf r (hsh1.mem_iff.mp hr) r' (hsh1.mem_iff.mp hr')) b,
-    keySum_perm w b hsh1, keySum_append_fresh w input dummies1 b hzero hfresh]
+  unfold pipeline
+  exact pipeline_eq_spec_rel w chunk f input dummies1 afterShuffle1 _ dummies2 hshards hsh1 hzero hfresh hf
+    (hsh2 _) hd2
 
 /-- Corollary used by the driver: the canonical run (no dummies, identity shuffles, identity PRF) on
 any assignment of the records to ≥ 1 shards equals the specification of the flattened input. -/
